@@ -9,58 +9,106 @@ import "luahelper-lsp/langserver/check/compiler/lexer"
 // Positions are mapped back to byte offsets with the LSP reference position model of C02 (refOffset).
 
 func c04class(doc []byte, at int) string {
-	// class predicates over the text that precedes the identifier on its line
+	// class predicates over the text that precedes the identifier
 	ls := 0
 	for i := 0; i < at; i++ {
 		if doc[i] == '\n' || doc[i] == '\r' {
 			ls = i + 1
 		}
 	}
-	esc, long, astral, twoByte, cr := false, false, false, false, false
+	esc, astral, nonASCII, lfcr := false, false, false, false
 	for i := ls; i < at; i++ {
-		c := doc[i]
-		if c == '\\' {
-			esc = true
-		}
-		if c == '[' && i+1 < at && (doc[i+1] == '[' || doc[i+1] == '=') {
-			long = true
-		}
-		if c >= 0xF0 {
+		if doc[i] >= 0xF0 {
 			astral = true
 		}
-		if c >= 0x80 {
-			twoByte = true // any non-ASCII character
+	}
+	for i := 0; i < at; i++ {
+		if doc[i] >= 0x80 {
+			nonASCII = true // also on earlier lines: an illegal token swallows the line end that terminates it
 		}
 	}
 	for i := 0; i < at; i++ {
 		if doc[i] == '\\' {
 			esc = true // a backslash-newline continues a string onto the identifier's line
 		}
-		if doc[i] == '\r' {
-			cr = true
-		}
-		if doc[i] == '[' && i+1 < at && (doc[i+1] == '[' || doc[i+1] == '=') {
-			long = true // a long bracket opened on an earlier line may span lines
+		if doc[i] == '\n' && i+1 < at && doc[i+1] == '\r' {
+			lfcr = true
 		}
 	}
+	// long brackets: (a) a well-formed long bracket that closes on the identifier's line (or never closes),
+	// (b) a malformed opener: '[' followed by one or more '=' and then something else than '['
+	closesOnLine, malformed := false, false
+	for i := 0; i < at; i++ {
+		if doc[i] != '[' {
+			continue
+		}
+		j := i + 1
+		for j < at && doc[j] == '=' {
+			j++
+		}
+		if j >= at || doc[j] != '[' {
+			if j > i+1 {
+				malformed = true
+			}
+			continue
+		}
+		level := j - i - 1
+		// find the closer
+		k := j + 1
+		found := -1
+		for k < at {
+			if doc[k] == ']' {
+				m := k + 1
+				for m < at && doc[m] == '=' {
+					m++
+				}
+				if m-k-1 == level && m < at && doc[m] == ']' {
+					found = m
+					break
+				}
+			}
+			k++
+		}
+		if found < 0 {
+			closesOnLine = true // unterminated before the identifier
+			break
+		}
+		nl := false
+		for m := found; m < at; m++ {
+			if doc[m] == '\n' || doc[m] == '\r' {
+				nl = true
+			}
+		}
+		if !nl {
+			closesOnLine = true
+		}
+		i = found
+	}
 	switch {
-	case long:
+	case closesOnLine:
 		return "C04-longbracket"
+	case malformed:
+		return "C04-malformed-longbracket"
 	case esc:
 		return "C04-escape"
 	case astral:
 		return "C04-astral"
-	case twoByte:
+	case nonASCII:
 		return "C04-nonascii"
-	case cr:
-		return "C04-cr"
+	case lfcr:
+		return "C04-lfcr"
 	}
 	return ""
 }
 
 func VerifRun_C04a() {
 	n := verifParam("N")
-	pre := verifBytesIn("pre", n, "'\"\\n[]=- \t\n\rx\xc3\xa9\xe4\xb8\xad\xf0\x9f\x98\x80")
+	var pre []byte
+	if verifParam("SIGMA") == 1 {
+		pre = verifBytesIn("pre", n, "[]=-\n\r x") // long brackets and line ends only
+	} else {
+		pre = verifBytesIn("pre", n, "'\"\\n[]=- \t\n\rx\xc3\xa9\xe4\xb8\xad\xf0\x9f\x98\x80")
+	}
 	verifAssume(refValidUTF8(pre))
 	doc := append(append([]byte{}, pre...), []byte("zq\n")...)
 	l := lexer.NewLexer(doc, "x.lua")
@@ -71,8 +119,8 @@ func VerifRun_C04a() {
 		if kind == lexer.TkEOF {
 			break
 		}
-		if kind != lexer.TkIdentifier {
-			continue
+		if kind != lexer.TkIdentifier || str != "zq" {
+			continue // the class predicates are defined relative to the harness' identifier
 		}
 		verifReach("identifier")
 		loc := l.GetNowTokenLoc()
